@@ -1254,7 +1254,9 @@ def check_year(ctx, rec, data, rep_cur, rep_spec):
                     mx_ = a_.get("max_props") or [1.0] * len(vs)
                     for p_, v, lo_p, hi_p in zip(a_["progs"], vs, mn_, mx_):
                         sh = v / tot_after
-                        if sh < lo_p - 1e-9 or sh > hi_p + 1e-9:
+                        # the members are fractions x proposed total, and the projected fractions add up to 1 only to the 1e-6 relative the property grants the
+                        # sum, so a share taken over the members' actual sum can be off by that much (thorough seed 4: 1.3e-9 below the minimum; DESIGN 13.4)
+                        if sh < lo_p * (1 - 2e-6) - 1e-12 or sh > hi_p * (1 + 2e-6) + 1e-12:
                             flag({"api": "SpendingPackageAdjustment.set_total_spend", "case": "share-outside-proportion-limits"},
                                  f"year {t}: after constrain_instructions {p_} holds {sh:.6f} of package {n} (members {vs}), allowed [{lo_p}, {hi_p}]")
                             break
